@@ -2237,39 +2237,19 @@ func (e *CoreExtension) functionParent(args ...interface{}) (interface{}, error)
 		// Get the name of the current block
 		blockName := ctx.currentBlock.name
 
-		// Debug logging
-		LogDebug("parent() call for block '%s'", blockName)
-		LogDebug("inParentCall=%v, currentBlock=%p", ctx.inParentCall, ctx.currentBlock)
-		LogDebug("Blocks in context: %v", getMapKeys(ctx.blocks))
-		LogDebug("Parent blocks in context: %v", getMapKeys(ctx.parentBlocks))
-
-		// Check for parent content in the parentBlocks map
-		parentContent, ok := ctx.parentBlocks[blockName]
-		if !ok || len(parentContent) == 0 {
+		// The next definition up the extends chain
+		depth := ctx.blockDepth + 1
+		if depth >= len(ctx.currentDefs) {
 			return "", fmt.Errorf("no parent block content found for block '%s'", blockName)
 		}
 
-		// For the simplest possible solution, render the parent content directly
-		// This is the most direct way to avoid recursion issues
+		// Render it with the same variables; a parent() inside it continues one level further up
 		var result bytes.Buffer
+		ctx.blockDepth = depth
+		defer func() { ctx.blockDepth = depth - 1 }()
 
-		// Create a clean context without parent() function to prevent recursion
-		cleanCtx := NewRenderContext(ctx.env, ctx.context, ctx.engine)
-		cleanCtx.sandboxed = ctx.sandboxed
-		cleanCtx.lastLoadedTemplate = ctx.lastLoadedTemplate
-		defer cleanCtx.Release()
-
-		// Copy all blocks and variables
-		for name, content := range ctx.blocks {
-			cleanCtx.blocks[name] = content
-		}
-
-		// The key here is to NOT set currentBlock - this breaks the recursion chain
-		cleanCtx.currentBlock = nil
-
-		// Render each node with the clean context
-		for _, node := range parentContent {
-			if err := node.Render(&result, cleanCtx); err != nil {
+		for _, node := range ctx.currentDefs[depth].body {
+			if err := node.Render(&result, ctx); err != nil {
 				return nil, err
 			}
 		}
